@@ -45,7 +45,7 @@ def main():
         checks = {}
         for l in open(f"/tmp/seedruns{W}/summary.txt"):
             mm = re.match(rf"seed{W} {p}-{i} check (\S+) rc=(\d+) wall=(\d+)s viol=(\d+) :: ?(.*)", l)
-            if mm:
+            if mm and int(mm.group(2)) in (0, 1):  # other exit codes: run stopped by me / harness trouble, not a verdict
                 checks[mm.group(1)] = {"check": mm.group(1), "exit": int(mm.group(2)), "violations": int(mm.group(4)), "first": mm.group(5).strip()[:240].replace('"', "'")}
         own = [checks[k] for k in checks if k == P] + [checks[k] for k in checks if k != P]
         json.dump({"id": sid, "repo_head": head, "tests_rc": c, "tests": tail, "demo_rc_with_patch": b, "checks": own}, open(d + "/last_run.json", "w"))
